@@ -58,3 +58,28 @@ Proof.
     assert (cos ((r + p) * (PI / 180)) < cos (rad r)) by (apply cos_decreasing_1; lra).
     split; [lra|intros _; lra].
 Qed.
+
+(* ---- every point within the search radius lies inside the cap handed to the triangle search:
+        SpatialDomain::setRaDecD(ra, dec, d) describes the cap { v | v . c >= d } *)
+Lemma within_radius_in_cap r ra1 dec1 ra2 dec2 : 0 <= r <= 180 ->
+  true_sep ra1 dec1 ra2 dec2 <= r ->
+  src_cover_cosine r <= dot (point (rad ra1) (rad dec1)) (point (rad ra2) (rad dec2))
+  /\ (r < 180 -> src_cover_cosine r < dot (point (rad ra1) (rad dec1)) (point (rad ra2) (rad dec2))).
+Proof.
+  intros Hr Hs. pose proof PI_RGT_0 as P.
+  destruct (cover_cap r Hr) as [_ [C1 C2]].
+  pose proof (true_sep_rad_range ra1 dec1 ra2 dec2) as [T0 T1].
+  assert (E : dot (point (rad ra1) (rad dec1)) (point (rad ra2) (rad dec2)) = cos (true_sep_rad ra1 dec1 ra2 dec2)).
+  { unfold true_sep_rad. symmetry. apply cos_acos. apply C_bound. }
+  assert (Hle : true_sep_rad ra1 dec1 ra2 dec2 <= rad r).
+  { unfold true_sep in Hs. unfold rad.
+    replace (true_sep_rad ra1 dec1 ra2 dec2) with (true_sep_rad ra1 dec1 ra2 dec2 * (180 / PI) * (PI / 180)) by (field; lra).
+    apply Rmult_le_compat_r; [apply Rlt_le, Rdiv_lt_0_compat; lra|exact Hs]. }
+  assert (R1 : rad r <= PI).
+  { unfold rad. replace PI with (180 * (PI / 180)) at 2 by field. apply Rmult_le_compat_r; [apply Rlt_le, Rdiv_lt_0_compat; lra|lra]. }
+  assert (Hc : cos (rad r) <= cos (true_sep_rad ra1 dec1 ra2 dec2)).
+  { destruct (Rle_lt_or_eq_dec _ _ Hle) as [Hlt|Heq].
+    - apply Rlt_le. apply cos_decreasing_1; lra.
+    - rewrite Heq. lra. }
+  rewrite E. split; [lra|]. intros Hlt. specialize (C2 Hlt). lra.
+Qed.
